@@ -65,6 +65,8 @@ class JSONStore(MutableMapping):
         try:
             with open(self.json_store, "r") as fp:
                 self.store = json.load(fp)
+            if not isinstance(self.store, dict):  # e.g. null or a list
+                raise ValueError("not a JSON object")
             self.logger.info(
                 "JSONStore loading: {}".format(self.json_store)
             )
